@@ -855,4 +855,28 @@ theorem corrupt_rejected (k : Kind) (id : Lumina.Util.Bytes) (h : id.length = 20
               · exact r2 hr
               · exact r1 hr
 
+/-! ## the three prefixes -/
+
+open Lumina.Spec.C47 (K) in
+def specKind : Kind → K
+  | .account => .account | .validator => .validator | .consensus => .consensus
+
+
+theorem pfx_facts (k : Kind) :
+    (∀ c ∈ k.pfx, isUpper c = false) ∧ hrpParse k.pfx = true ∧ kindOfStr k.pfx = some k ∧
+    k.pfx.length + 1 + 32 + 6 ≤ 1023 ∧ (specKind k).pfx = k.pfx ∧
+    hrpFes k.pfx = Lumina.Spec.C47.hrpExpand k.pfx ∧ (∀ x ∈ hrpFes k.pfx, x < 32) := by
+  cases k <;> decide
+
+theorem map_toNat_lt (id : Lumina.Util.Bytes) : ∀ b ∈ id.map UInt8.toNat, b < 256 := by
+  intro b hb
+  obtain ⟨x, _, rfl⟩ := List.mem_map.mp hb
+  exact x.toNat_lt
+
+theorem map_ofNat_toNat (id : Lumina.Util.Bytes) : (id.map UInt8.toNat).map UInt8.ofNat = id := by
+  induction id with
+  | nil => rfl
+  | cons b id ih => simp [ih]
+
+
 end Lumina.Proofs.Bech32
